@@ -665,6 +665,8 @@ class Parser:
         node: ast.Call | None = None
         for atom, tok in atoms:
             fn = "superhelp" if tok.is_exact_type("??") else "help"
+            if node is not None and not isinstance(atom, ast.Name):
+                self.raise_syntax_error_known_location("invalid syntax", atom)
             if node is None:
                 node = xonsh_call(f"__xonsh__.{fn}", atom, **tok.loc())
             else:
